@@ -128,6 +128,8 @@ def matchL : List Term → List Term → Subst → Option Subst
 abbrev Answers := List (List Term)
 abbrev Result := Except Term Answers
 
+deriving instance DecidableEq for Except
+
 /-- `Delay(ks…)` whose alternatives each unify the call with one GROUND candidate tuple:
     the answers are the candidates that match, in order -/
 def selectCands (args : List Term) (cands : Answers) : Answers :=
@@ -319,6 +321,12 @@ def atomCodes (atom codes : Term) : Result :=
 
 /-! ## char_code/2 -/
 
+/-- `CharCode` with the character bound: `rs := []rune(ch.String()); len(rs) != 1 → type_error` -/
+def charCodeOfAtom (char code : Term) (ch : String) : Result :=
+  match ch.toList with
+  | [c] => .ok (selectCands [char, code] [[char, .int (Int.ofNat c.toNat)]])
+  | _ => .error (typeErr "character" char)
+
 def charCode (char code : Term) : Result :=
   match char with
   | .var _ =>
@@ -330,10 +338,8 @@ def charCode (char code : Term) : Result :=
     | _ => .error (typeErr "integer" code)
   | .atom ch =>
     match code with
-    | .var _ | .int _ =>
-      match ch.toList with
-      | [c] => .ok (selectCands [char, code] [[char, .int (Int.ofNat c.toNat)]])
-      | _ => .error (typeErr "character" char)
+    | .var _ => charCodeOfAtom char code ch
+    | .int _ => charCodeOfAtom char code ch
     | _ => .error (typeErr "integer" code)
   | _ => .error (typeErr "character" char)
 
